@@ -549,6 +549,54 @@ pub fn gen_history(r: &mut Rng, p: &Program, cfg: &GenCfg) -> Vec<Op> {
 // which one changes, a firewall above a firewall that does not change.
 // ------------------------------------------------------------------------------------------
 
+// ------------------------------------------------------------------------------------------
+// targeted family (finding F1c): a projection that reads a SECOND firewall only for some values of
+// a first one, with small value ranges so that the projection's value often does not change when
+// its read set does; normal nodes above it that are only re-verified; the same root every epoch.
+// ------------------------------------------------------------------------------------------
+
+pub fn gen_pjswitch(r: &mut Rng) -> Case {
+    let mut nodes: Vec<NodeDef> = vec![];
+    let n_in = 2 + r.below(2) as u32;
+    for _ in 0..n_in { nodes.push(NodeDef { kind: Kind::Input, default: 0, expr: Expr::Const(0) }); }
+    let inputs: Vec<u32> = (0..n_in).collect();
+    let mut fws = vec![];
+    for i in 0..n_in.min(3) {
+        fws.push(nodes.len() as u32);
+        let e = if r.chance(1, 3) { Expr::IfEq(Box::new(Expr::Read(i)), r.below(3) as i64, Box::new(Expr::Const(1)), Box::new(Expr::Read(i))) } else { Expr::Read(i) };
+        nodes.push(NodeDef { kind: Kind::Firewall, default: kind_default(Kind::Firewall), expr: e });
+    }
+    // the switching projection: if F_a == c then F_b else constant / F_a
+    let a = fws[0]; let b = fws[1];
+    let other = if r.chance(1, 2) { Expr::Const(r.below(3) as i64) } else { Expr::Read(a) };
+    let pj = nodes.len() as u32;
+    nodes.push(NodeDef { kind: Kind::Projection, default: kind_default(Kind::Projection), expr: Expr::IfEq(Box::new(Expr::Read(a)), r.below(3) as i64, Box::new(Expr::Read(b)), Box::new(other)) });
+    let mut prev = pj;
+    if r.chance(1, 3) {
+        let k = nodes.len() as u32;
+        nodes.push(NodeDef { kind: Kind::Projection, default: kind_default(Kind::Projection), expr: Expr::Read(prev) });
+        prev = k;
+    }
+    let mut chain = vec![];
+    for _ in 0..r.range(1, 3) {
+        let k = nodes.len() as u32;
+        nodes.push(NodeDef { kind: Kind::Normal, default: kind_default(Kind::Normal), expr: Expr::Read(prev) });
+        chain.push(k); prev = k;
+    }
+    let top = prev;
+    let p = Program { nodes };
+    let mut ops = vec![Op::Session(inputs.iter().map(|k| Write::Set(*k, r.below(3) as i64)).collect())];
+    ops.push(Op::Round(vec![top]));
+    for _ in 0..r.range(3, 8) {
+        let mut ws = vec![];
+        for _ in 0..r.range(1, 2) { ws.push(Write::Set(*r.pick(&inputs), r.below(3) as i64)); }
+        ops.push(Op::Session(ws));
+        if r.chance(1, 5) { ops.push(Op::Round(vec![*r.pick(&chain)])); }
+        ops.push(Op::Round(vec![top]));
+    }
+    Case { program: p, ops }
+}
+
 pub fn gen_layered(r: &mut Rng) -> Case {
     let mut nodes: Vec<NodeDef> = vec![];
     let n_in = r.range(2, 4) as u32;
